@@ -751,6 +751,14 @@ class VC(object):
         from .interp import resolve
         obj = resolve(func) if isinstance(func, str) else func
         self.run.loop_specs[(_fkey(obj), ordinal)] = (invariant, havoc, decreases, on_exit)
+        if os.environ.get('PYVC_RECORD_LOCALS'):
+            # tools/gen_loop_locals.sh: remember the binding order of the locals of every function with a loop contract (see interp.alpha_name)
+            import json
+            f = getattr(obj, '__func__', obj)
+            path = os.environ['PYVC_RECORD_LOCALS']
+            cur = json.load(open(path)) if os.path.exists(path) else {}
+            cur[f.__module__ + '.' + f.__qualname__] = list(f.__code__.co_varnames)
+            json.dump(cur, open(path, 'w'), indent=1, sort_keys=True)
 
     def abstract_expr(self, func, regex, handler):
         """Replace the call expression of `func` whose source text matches `regex` by `handler(interp, node, match)`
